@@ -42,12 +42,17 @@ D_MERGE = dict(rs("t/d", [["string", "a"], ["boolean", "c"]], ["'vm'", "True"]),
 AL1 = rs("t/al", [["string", "s"], ["net.ipaddress", "ip"], ["net.ipnetwork[]", "nets"]], ["'x'", "'1.2.3.4'", "['10.0.0.0/8']"])
 AL2 = rs("t/al", [["wstring", "s"], ["net.IPAddress", "ip"], ["net.IPNetwork[]", "nets"]], ["'x'", "'1.2.3.4'", "['10.0.0.0/8']"])
 
+# two types of one name whose (name, 32-bit hash) identifiers coincide: the hash covers the concatenated field names and types only
+K1 = rs("t/k", [["stringlist", "a"], ["string", "b"]], ["['p', 'q']", "'vb'"])
+K2 = rs("t/k", [["string", "a"], ["string", "listb"]], ["'plain'", "'vlb'"])
+G_K2 = {"group": "g/k2c", "members": [K2, C]}  # the second of the pair only as a member of a grouped record
+
 G_GEN = dict(G_X, group="g/gen", members_as="generator")  # members handed over as a one-shot iterable
 N_E = rs("t/holdsempty", [["record", "sub"], ["record[]", "subs"]], [E, [E]])  # a field-less type that occurs only nested
 
 G_NEST = {"group": "g/outer", "members": [{"group": "g/inner", "members": [A, C, X]}, E]}  # a grouped record built from a grouped record
 
-SHAPES = {"G_NEST": G_NEST, "G_GEN": G_GEN, "N_E": N_E, "D_BASE": D_BASE, "D_EXT": D_EXT, "D_CLONE": D_CLONE, "D_STR": D_STR, "D_UNP": D_UNP, "D_MERGE": D_MERGE, "AL1": AL1, "AL2": AL2, "F_BAD2": F_BAD2, "F_OK2": F_OK2, "U1": U1, "U2": U2, "F_BAD": F_BAD, "F_OK": F_OK, "A": A, "A2": A2, "C": C, "BIG": BIG, "E": E, "N_A": N_A, "N_X": N_X, "G": G, "G_X": G_X, "G_ALT": G_ALT}
+SHAPES = {"K1": K1, "K2": K2, "G_K2": G_K2, "G_NEST": G_NEST, "G_GEN": G_GEN, "N_E": N_E, "D_BASE": D_BASE, "D_EXT": D_EXT, "D_CLONE": D_CLONE, "D_STR": D_STR, "D_UNP": D_UNP, "D_MERGE": D_MERGE, "AL1": AL1, "AL2": AL2, "F_BAD2": F_BAD2, "F_OK2": F_OK2, "U1": U1, "U2": U2, "F_BAD": F_BAD, "F_OK": F_OK, "A": A, "A2": A2, "C": C, "BIG": BIG, "E": E, "N_A": N_A, "N_X": N_X, "G": G, "G_X": G_X, "G_ALT": G_ALT}
 
 
 def small(spec):
@@ -110,7 +115,7 @@ def cases(tier, seed):
     import itertools
 
     for k in range(1, L + 1):
-        pool = names if k <= 2 else (["A", "A2", "C", "N_A", "N_X", "G", "G_X", "G_ALT", "BIG", "F_BAD", "F_OK", "F_BAD2", "F_OK2", "U1", "U2", "D_BASE", "D_EXT", "D_CLONE", "AL1", "AL2"] if k == 3 else ["A", "A2", "N_X", "G_X", "G", "G_ALT"])
+        pool = names if k <= 2 else (["A", "A2", "C", "N_A", "N_X", "G", "G_X", "G_ALT", "BIG", "F_BAD", "F_OK", "F_BAD2", "F_OK2", "U1", "U2", "D_BASE", "D_EXT", "D_CLONE", "AL1", "AL2", "K1", "K2", "G_K2"] if k == 3 else ["A", "A2", "N_X", "G_X", "G", "G_ALT"])
         for seq in itertools.product(pool, repeat=k):
             yield {"kind": "s4", "t": "seq", "shape": list(seq), "records": [SHAPES[n] for n in seq]}
     # S5 atoms wrapped as record / record[] / grouped member
